@@ -1,8 +1,15 @@
-"""C18 — descriptor grammar tables, name predicates, checked-newtype discipline."""
+"""C18 — descriptor grammar tables, name predicates, checked-newtype discipline.
+
+Predicates, validators and guards are compared as *boolean formulae over subject atoms* (lib/c18_sym.py): the program text of a function
+is evaluated symbolically (early return, `?`, bail!, if/else, match, if-let, let-else, matches!, for-loops that return at the first
+offending element, Iterator::all/any, Option/Result combinators, calls into helpers of the same crates inlined) and the resulting formula
+is compared by truth table with the documented one.  Functions are anchored by role (what calls them / their signature); names of private
+items are only tie-breakers.
+"""
 import json
 import os
 
-from lib import boolform as B
+from lib import c18_sym as S
 from lib import hir as H
 from lib import tables as T
 
@@ -14,13 +21,14 @@ def run(F, R, tier):
     duke = F.crate("duke")
     r18_1(duke, R, spec)
     r18_2(F, R, spec)
-    r18_3(F, R, spec)
-    r18_4(duke, R, spec)
-    r18_5(duke, R, spec)
+    validators = r18_4(F, R, spec)
+    r18_3(F, R, spec, validators)
+    r18_5(F, R, spec)
     return ("A5 terminal tables of read_field_type/write_field_type against the JVMS grammar (all ASCII code points), position of V, "
             "255-dimension guard dominance, trailing-input rejection in the three parse(); A8 discipline for every from_inner_unchecked "
             "call site (106) incl. literal validation against an independent JVMS 4.2 predicate; truth-table equivalence of the five name "
-            "predicates with the documented formulae and with their duke-macros siblings; TryFrom dominated by check_valid; split/join helper guards")
+            "predicates, of the validators of the seven name types and of the duke-macros checkers with the documented formulae (symbolic "
+            "evaluation of the program text, helpers inlined); TryFrom: unchecked constructor only under the validator's Ok; split/join helper guards")
 
 
 # ------------------------------------------------------------------------------------ R18.1
@@ -37,12 +45,58 @@ def _char_matches(fn_body):
     return out
 
 
+RAW_TEXT_TYPES = ("java_string::owned::JavaString", "java_string::slice::JavaStr", "alloc::string::String", "str")
+
+
+def _strip_ty(t):
+    t = (t or "").strip()
+    while t.startswith("&"):
+        t = t[1:].strip()
+        if t.startswith("'"):
+            t = t.split(" ", 1)[1] if " " in t else t
+        if t.startswith("mut "):
+            t = t[4:]
+    return t
+
+
+def _conversions(node, crate, stream_ty, depth=0, seen=()):
+    """Conversions raw text -> name newtype that happen while `node` is evaluated, following calls into helpers of the crate that receive
+    the character stream (the parser state) or raw text.  -> [target type]"""
+    convs = []
+    for n in H.walk(node):
+        if n.get("k") not in ("call", "mcall"):
+            continue
+        name = H.callee_name(n)
+        c = n.get("callee") or {}
+        args = H.call_args(n)
+        arg_tys = [_strip_ty(a.get("ty")) for a in args]
+        if name in ("try_from", "try_into", "from_inner_unchecked", "from_inner", "new_unchecked"):
+            if any(t in RAW_TEXT_TYPES for t in arg_tys):
+                target = c.get("self_ty") or c.get("impl_ty") or ""
+                if name == "try_into":
+                    target = n.get("ty") or ""
+                convs.append(target)
+            continue
+        key = c.get("inst_key") or c.get("key")
+        b = crate.by_key.get(key)
+        if b is not None and key not in seen and depth < 4 and any(t == stream_ty or t in RAW_TEXT_TYPES for t in arg_tys):
+            convs.extend(_conversions(b["body"], crate, stream_ty, depth + 1, seen + (key,)))
+    return convs
+
+
+def _parse_sym(duke, rft):
+    """Evaluator for the three parse(): read_field_type stays an opaque call atom."""
+    rkey = rft["key"] if rft else None
+    return S.Sym([duke], opaque_call=lambda c, body: body["key"] == rkey)
+
+
 def r18_1(duke, R, spec):
     R.rule("R18.1", "read_field_type maps exactly the terminals B C D F I J S Z L to the JVMS types (plain and array position) and rejects every "
                     "other code point; write_field_type is the inverse table; V is accepted only in return position; the dimension counter is "
                     "incremented only below 255; the three parse() reject trailing input; method descriptors require '(' … ')'")
     rft = duke.fn("read_field_type")
     if R.anchor("R18.1", "fn read_field_type", rft):
+        stream_ty = _strip_ty((rft.get("inputs") or [""])[0])
         ms = _char_matches(rft["body"])
         if R.anchor("R18.1", "two terminal-dispatch matches in read_field_type", len(ms) == 2, sp=rft["sp"]):
             for m in ms:
@@ -57,14 +111,11 @@ def r18_1(duke, R, spec):
                         got = r.v
                     want = spec["field_type_terminals"].get(ch)
                     if got[0] == "v" and got[1] == "Array":
-                        pos = "array"
                         inner = got[2][1] if len(got[2]) > 1 else ("sym", "?")
                         name = inner[1] if inner[0] == "v" else T.show(inner)
                     elif got[0] == "v":
-                        pos = "plain"
                         name = got[1]
                     else:
-                        pos = None
                         name = "Err" if got[0] == "err" else T.show(got)
                     if want is None:
                         R.inst("R18.1", "read-terminal:%s:%r" % (_pos_of(m), ch), got[0] == "err", sp=m["sp"], expect="error", got=name,
@@ -72,7 +123,8 @@ def r18_1(duke, R, spec):
                     else:
                         R.inst("R18.1", "read-terminal:%s:%r" % (_pos_of(m), ch), name == want, sp=m["sp"], expect=want, got=name)
             # the text between `L` and `;` must be validated as an *object* class name in both positions (JVMS 4.3.2: ClassName,
-            # not an array descriptor); ArrayType::Object stores a ClassName, so a ClassName::try_from would type-check too
+            # not an array descriptor); ArrayType::Object stores a ClassName, so a ClassName::try_from would type-check too.
+            # The conversion may sit in the arm or in a helper that continues reading the character stream (followed).
             for m in ms:
                 arm = None
                 for a in m["arms"]:
@@ -82,34 +134,30 @@ def r18_1(duke, R, spec):
                         vals = None
                     if vals and ord("L") in vals:
                         arm = a
-                convs = []
-                if arm is not None:
-                    for n in H.walk(arm["body"]):
-                        if n.get("k") in ("call", "mcall") and H.callee_name(n) in ("try_from", "try_into", "from_inner_unchecked", "from_inner", "new_unchecked"):
-                            c = n.get("callee") or {}
-                            target = c.get("self_ty") or c.get("impl_ty") or ""
-                            if H.callee_name(n) == "try_into":
-                                target = n.get("ty") or ""
-                            convs.append(target)
+                convs = _conversions(arm["body"], duke, stream_ty, seen=(rft["key"],)) if arm is not None else []
                 okc = bool(convs) and all("ObjClassName" in t for t in convs)
                 R.inst("R18.1", "object-name-validated-as-ObjClassName:%s" % _pos_of(m), okc, sp=(arm or m)["sp"], got=convs,
                        expect="the name between `L` and `;` goes through ObjClassName::try_from (rejects empty names, '.', ';', '[' and array names)")
-        # the 255 guard dominates the increment of the dimension counter
+        # the 255 guard dominates the increment of the dimension counter (path condition at the increment, any guard shape)
         incs = [n for n in H.walk(rft["body"]) if n.get("k") == "assignop" and n["op"] in ("+", "+=")]
         ok = False
         sp = rft["sp"]
-        for inc in incs:
-            tgt = H.local_of(inc["l"])
-            if not tgt:
-                continue
-            sp = inc["sp"]
-            for kind, cond, pol in H.path_conditions(rft["body"], inc):
-                c0 = H.peel(cond, refs=False)
-                if kind == "after-exit" and c0.get("k") == "bin" and c0["op"] in ("==", ">=") and H.local_of(c0["l"]) and H.local_of(c0["l"])[0] == tgt[0] \
-                        and H.const_value(c0["r"]) == spec["max_array_dimension"] and inc["l"].get("ty") == "u8":
-                    ok = True
-        R.inst("R18.1", "dimension-guard", ok and len(incs) == 1, sp=sp,
-               detail="`array_dimension += 1` (u8) must come after `if array_dimension == 255 { bail }` on every path")
+        why = "no `+= 1` on a u8 counter"
+        if len(incs) == 1 and incs[0]["l"].get("ty") == "u8" and H.const_value(incs[0]["r"]) == 1:
+            sp = incs[0]["sp"]
+            sym = S.Sym([duke], opaque_call=lambda c, body: True)
+            sym.watch_ids.add(id(incs[0]))
+            sym.fn_value(rft)
+            hits = sym.watch.get(id(incs[0]), [])
+            why = "increment not reached by the evaluator"
+            for pc, vals in hits:
+                cur = vals[0]
+                if cur and cur[0] == "s":
+                    mx = spec["max_array_dimension"]
+                    ok = S.implies(pc, S.f_not(S.atom("eq", cur[1], mx)))[0] or S.implies(pc, S.f_not(S.atom("ge", cur[1], mx)))[0]
+                    why = "path condition at the increment: %s" % S.show(pc)
+        R.inst("R18.1", "dimension-guard", ok and len(incs) == 1, sp=sp, got=why,
+               detail="`array_dimension += 1` (u8) is reached only when the counter is not (yet) 255")
     # V only in return position; trailing input; parentheses
     parses = {}
     for b in duke.fns("parse"):
@@ -121,52 +169,48 @@ def r18_1(duke, R, spec):
         b = parses.get(nm)
         if not R.anchor("R18.1", "fn %s::parse" % nm, b):
             continue
-        v_tests = [n for n in H.walk(b["body"]) if n.get("k") == "mcall" and n["name"] == "next_if_eq" and H.const_value(n["args"][0]) == spec["void_terminal"]]
+        sym = _parse_sym(duke, rft)
+        val = sym.fn_value(b)
+        P = sym.positive(val)
+        ats = S.atoms_of(P)
+        for fr_pc in ():
+            pass
+
+        def it_atoms(method, arg=None):
+            return [a for a in ats if a[0] == "iter" and a[1] == method and a[2] == "chars" and a[3] == "p0" and (arg is None or a[4] == (arg,))]
+        v_tests = [n for n in H.walk(b["body"]) if n.get("k") == "mcall" and n["name"] in ("next_if_eq", "next_if") and n["args"] and H.const_value(n["args"][0]) == spec["void_terminal"]]
+        v_at = it_atoms("next_if_eq", spec["void_terminal"])
+        reads = [a for a in ats if a[0] == "call" and rft and a[1] == rft["key"]]
         if nm == "FieldDescriptorSlice":
-            R.inst("R18.1", "void-position:%s" % nm, len(v_tests) == 0, sp=b["sp"], detail="V is not a field type")
+            R.inst("R18.1", "void-position:%s" % nm, len(v_tests) == 0 and not v_at, sp=b["sp"], detail="V is not a field type")
         else:
+            # the Option in the result is None exactly when `V` was consumed, and otherwise a field type has been read
+            comps = _bool_components(val[2]) if val[0] == "b" and val[2] is not None else []
             ok = False
-            if len(v_tests) == 1:
-                # if chars.next_if_eq(&'V').is_some() { None } else { Some(read_field_type(..)?) }
-                for n in H.walk(b["body"]):
-                    if n.get("k") == "if" and any(x is v_tests[0] for x in H.walk(n["cond"])) and "else" in n:
-                        c0, neg = H.negate_peel(n["cond"])
-                        is_some = c0.get("k") == "mcall" and c0["name"] in ("is_some", "is_none")
-                        pos_then = is_some and ((c0["name"] == "is_some") != neg)
-                        then_v = H.ctor_of(H.peel(_tail(n["then"])))
-                        else_has_read = any(H.is_call(x, "read_field_type") for x in H.walk(n["else"]))
-                        then_has_read = any(H.is_call(x, "read_field_type") for x in H.walk(n["then"]))
-                        if pos_then:
-                            ok = bool(then_v) and then_v[1] == "None" and else_has_read
-                        else:
-                            else_v = H.ctor_of(H.peel(_tail(n["else"])))
-                            ok = bool(else_v) and else_v[1] == "None" and then_has_read
-            R.inst("R18.1", "void-position:%s" % nm, ok, sp=b["sp"], detail="`V` => no return type, anything else => a field type")
-        # trailing input: the final Ok(..) is reached only after `if chars.peek().is_some() { bail }`
-        tail = _tail(b["body"])
-        ok = False
-        for kind, cond, pol in H.path_conditions(b["body"], tail):
-            if kind == "after-exit":
-                c0, neg = H.negate_peel(cond)
-                if c0.get("k") == "mcall" and c0["name"] == "is_some" and not neg and H.is_call(H.peel(c0["recv"]), "peek"):
-                    ok = True
-        R.inst("R18.1", "trailing-input-rejected:%s" % nm, ok, sp=tail.get("sp"),
-               detail="`if chars.peek().is_some() { bail }` must precede the successful return")
+            got = "V tests: %d, optional components of the result: %d" % (len(v_tests), len(comps))
+            if len(v_tests) == 1 and len(v_at) == 1 and len(comps) == 1 and len(reads) == 1:
+                V = ("atom", v_at[0])
+                rd = ("atom", reads[0])
+                ok = (S.equivalent(S.f_and(P, comps[0]), S.f_and(P, S.f_not(V)))[0] and S.implies(S.f_and(P, S.f_not(V)), rd)[0]
+                      and S.equivalent(S.f_and(P, V), S.FALSE)[0] is False)
+                got = "Some iff %s (under success)" % S.show(_restrict(comps[0], P))
+            R.inst("R18.1", "void-position:%s" % nm, ok, sp=b["sp"], got=got, detail="`V` => no return type, anything else => a field type")
+        # trailing input: success implies that `chars.peek()` gave None
+        pk = it_atoms("peek")
+        ok = len(pk) == 1 and S.implies(P, S.f_not(("atom", pk[0])))[0] and S.equivalent(P, S.FALSE)[0] is False
+        R.inst("R18.1", "trailing-input-rejected:%s" % nm, ok, sp=b["sp"], got="returns Ok iff " + S.show(P)[:300],
+               detail="a successful return requires `chars.peek()` to be None")
         if nm == "MethodDescriptorSlice":
-            opens = [n for n in H.walk(b["body"]) if n.get("k") == "mcall" and n["name"] == "next_if_eq" and H.const_value(n["args"][0]) == "("]
+            op = it_atoms("next_if_eq", "(")
+            ok_open = len(op) == 1 and S.implies(P, ("atom", op[0]))[0]
+            R.inst("R18.1", "method-open-paren", ok_open, sp=b["sp"], got="returns Ok iff " + S.show(P)[:300])
             closes = [n for n in H.walk(b["body"]) if n.get("k") == "mcall" and n["name"] == "next_if_eq" and H.const_value(n["args"][0]) == ")"]
-            ok_open = False
-            for n in H.walk(b["body"]):
-                if n.get("k") == "if" and opens and any(x is opens[0] for x in H.walk(n["cond"])) and H.diverges(n["then"]):
-                    c0, neg = H.negate_peel(n["cond"])
-                    ok_open = c0.get("k") == "mcall" and ((c0["name"] == "is_none") != neg)
-            R.inst("R18.1", "method-open-paren", ok_open and len(opens) == 1, sp=b["sp"])
             ok_close = False
             for n in H.walk(b["body"]):
                 if n.get("k") == "loop" and closes and any(x is closes[0] for x in H.walk(n)):
                     brk = [x for x in H.walk(n) if x.get("k") == "break"]
-                    reads = [x for x in H.walk(n) if H.is_call(x, "read_field_type")]
-                    ok_close = len(brk) == 1 and len(reads) == 1
+                    rds = [x for x in H.walk(n) if H.is_call(x, "read_field_type")]
+                    ok_close = len(brk) == 1 and len(rds) == 1 and len(closes) == 1
             R.inst("R18.1", "method-parameter-loop", ok_close, sp=b["sp"], detail="parameters are read until `)`")
     # writer table
     wft = duke.fn("write_field_type")
@@ -199,6 +243,26 @@ def r18_1(duke, R, spec):
     R.floor("R18.1", 2 * 95 + 19 + 8)
 
 
+def _bool_components(v):
+    """Option/Result/bool-valued components of an abstract payload (struct / tuple-struct / tuple)."""
+    out = []
+    if v is None:
+        return out
+    if v[0] == "b":
+        out.append(v[1])
+    elif v[0] == "t":
+        for x in v[1]:
+            out.extend(_bool_components(x))
+    elif v[0] == "st":
+        for x in v[2].values():
+            out.extend(_bool_components(x))
+    return out
+
+
+def _restrict(f, P):
+    return f
+
+
 def _pos_of(m):
     for a in m["arms"]:
         for x in H.walk(a["body"]):
@@ -211,13 +275,6 @@ def _pos_of(m):
 def _inside_match(root, x):
     chain = H.parents_of(root, x) or []
     return any(p.get("k") == "match" for p in chain)
-
-
-def _tail(n):
-    n = H.peel(n, refs=False)
-    while n.get("k") == "block" and "tail" in n:
-        n = H.peel(n["tail"], refs=False)
-    return n
 
 
 # ------------------------------------------------------------------------------------ JVMS 4.2 reference predicates
@@ -240,49 +297,127 @@ def _valid_for_type(tyname, s, spec):
     return None
 
 
-# closed conversions between checked types (frozen table; one line of reason each)
-CLOSED = {
-    ("duke::tree::class::ClassName::into_arr_and_obj", "ArrClassName"): "guarded by is_array() (then-branch)",
-    ("duke::tree::class::ClassName::into_arr_and_obj", "ObjClassName"): "a valid ClassName that is not an array is an object class name (else-branch)",
-    ("duke::tree::class::ClassNameSlice::as_arr_and_obj", "ArrClassNameSlice"): "guarded by is_array()",
-    ("duke::tree::class::ClassNameSlice::as_arr_and_obj", "ObjClassNameSlice"): "non-array ClassName is an ObjClassName",
-    ("<duke::tree::class::ClassName as core::convert::From<duke::tree::class::ArrClassName>>::from", "ClassName"): "subset conversion",
-    ("<duke::tree::class::ClassName as core::convert::From<duke::tree::class::ObjClassName>>::from", "ClassName"): "subset conversion",
-    ("duke::tree::class::ObjClassNameSlice::as_class_name", "ClassNameSlice"): "subset conversion",
-    ("duke::tree::class::ObjClassName::from_inner_class", "ObjClassName"): "valid name + '$' + valid name (no separator chars added)",
-    ("duke::tree::class::ObjClassNameSlice::get_simple_name", "ObjClassNameSlice"): "a '/'-separated segment of a valid name",
-    ("duke::tree::class::ObjClassNameSlice::split_inner_class_parent_and_name", "ObjClassNameSlice"): "both halves checked non-empty, parent not ending in '/', inner without '/' (R18.5)",
-    ("duke::tree::descriptor::ParsedFieldDescriptor::write", "FieldDescriptor"): "printer output (FieldDescriptor::check_valid accepts everything today)",
-    ("duke::tree::descriptor::ParsedMethodDescriptor::write", "MethodDescriptor"): "printer output",
-    ("duke::tree::descriptor::ParsedReturnDescriptor::write", "ReturnDescriptor"): "printer output",
-    ("<duke::tree::descriptor::ReturnDescriptor as core::convert::From<duke::tree::field::FieldDescriptor>>::from", "ReturnDescriptor"): "FieldType is a ReturnDescriptor",
-    ("duke::tree::descriptor::<impl duke::tree::field::FieldDescriptor>::from_arr_class", "FieldDescriptor"): "an array class name is its own descriptor",
-    ("duke::tree::descriptor::<impl duke::tree::field::FieldDescriptor>::from_obj_class", "FieldDescriptor"): "'L' name ';' wrapper",
-    ("quill::remapper::ARemapper::map_class_any", "ArrClassName"): "result of map_desc on an array class name keeps the leading '['",
-    ("quill::remapper::ARemapper::map_field_desc", "FieldDescriptor"): "map_desc preserves descriptor shape (descriptor types accept everything today)",
-    ("quill::remapper::ARemapper::map_method_desc", "MethodDescriptor"): "map_desc preserves descriptor shape",
-    ("quill::remapper::ARemapper::map_return_desc", "ReturnDescriptor"): "map_desc preserves descriptor shape",
-}
-# sites outside C18's anchors whose argument is built from already-checked names; listed so that a NEW site is noticed
-OTHER_OWNERS = {
-    "dukebox::remap::remap_jar_entry_name_java": "C07",
-    "dukenest::nester_run::replace_double_underscore_with_dollar": "C14",
-    "dukenest::nester_jar::nest_jar::remap": "C14",
-    "dukenest::nests_mapper_run::NestTypeA::<'a>::new": "C14",
-    "dukenest::nests_mapper_run::inner_name": "C14",
-    "dukenest::nests_mapper_run::rsplit_underscore": "C14",
-    "dukenest::nests_mapper_run::construct_inner_name_from_anonymous_number": "C14",
-    "feather_build_rs::insert_mappings::insert_mappings": "outside the listed properties (binary-only helper)",
-    "quill::action::insert_dummy::<impl quill::tree::mappings_diff::MappingsDiff>::insert_dummy_and_contract_inner_names": "C10 (p_<index> literal prefix + decimal digits)",
-    "quill::remapper::map_desc": "C06 (R06.4)",
-}
+# Reviewed constructions of a checked type from data that is not re-validated (frozen table).  A site is identified by its ROLE:
+# (owner = impl type / module, multiset of parameter types, return type, constructed type) — not by the name of the function, so renaming or
+# hoisting a private helper does not disturb it; `n` = number of reviewed sites with that role (an additional one is reported).
+# kind `closed`: documented closed conversion between already-checked types; kind `other-owner`: argument built from already-checked names,
+# decided under another property's rule (listed so that a NEW site is noticed).   (kind, label, owner, inputs, output, target, n, reason)
+REVIEWED_SITES = [
+    ('closed', 'duke::tree::class::ClassName::into_arr_and_obj',
+     'duke::tree::class::ClassName', ('duke::tree::class::ClassName',),
+     'core::result::Result<duke::tree::class::ArrClassName, duke::tree::class::ObjClassName>', 'ArrClassName', 1, 'guarded by is_array() (then-branch)'),
+    ('closed', 'duke::tree::class::ClassName::into_arr_and_obj',
+     'duke::tree::class::ClassName', ('duke::tree::class::ClassName',),
+     'core::result::Result<duke::tree::class::ArrClassName, duke::tree::class::ObjClassName>', 'ObjClassName', 1, 'a valid ClassName that is not an array is an object class name (else-branch)'),
+    ('closed', 'duke::tree::class::ClassNameSlice::as_arr_and_obj',
+     'duke::tree::class::ClassNameSlice', ('&duke::tree::class::ClassNameSlice',),
+     'core::result::Result<&duke::tree::class::ArrClassNameSlice, &duke::tree::class::ObjClassNameSlice>', 'ArrClassNameSlice', 1, 'guarded by is_array()'),
+    ('closed', 'duke::tree::class::ClassNameSlice::as_arr_and_obj',
+     'duke::tree::class::ClassNameSlice', ('&duke::tree::class::ClassNameSlice',),
+     'core::result::Result<&duke::tree::class::ArrClassNameSlice, &duke::tree::class::ObjClassNameSlice>', 'ObjClassNameSlice', 1, 'non-array ClassName is an ObjClassName'),
+    ('closed', '<duke::tree::class::ClassName as core::convert::From<duke::tree::class::ArrClassName>>::from',
+     'duke::tree::class::ClassName as <duke::tree::class::ClassName as core::convert::From<duke::tree::class::ArrClassName>>', ('duke::tree::class::ArrClassName',),
+     'duke::tree::class::ClassName', 'ClassName', 1, 'subset conversion'),
+    ('closed', '<duke::tree::class::ClassName as core::convert::From<duke::tree::class::ObjClassName>>::from',
+     'duke::tree::class::ClassName as <duke::tree::class::ClassName as core::convert::From<duke::tree::class::ObjClassName>>', ('duke::tree::class::ObjClassName',),
+     'duke::tree::class::ClassName', 'ClassName', 1, 'subset conversion'),
+    ('closed', 'duke::tree::class::ObjClassName::from_inner_class',
+     'duke::tree::class::ObjClassName', ('duke::tree::class::ObjClassName', '&duke::tree::class::ObjClassNameSlice'),
+     'duke::tree::class::ObjClassName', 'ObjClassName', 1, "valid name + '$' + valid name (no separator chars added)"),
+    ('closed', 'duke::tree::class::ObjClassNameSlice::as_class_name',
+     'duke::tree::class::ObjClassNameSlice', ('&duke::tree::class::ObjClassNameSlice',),
+     '&duke::tree::class::ClassNameSlice', 'ClassNameSlice', 1, 'subset conversion'),
+    ('closed', 'duke::tree::class::ObjClassNameSlice::get_simple_name',
+     'duke::tree::class::ObjClassNameSlice', ('&duke::tree::class::ObjClassNameSlice',),
+     '&duke::tree::class::ObjClassNameSlice', 'ObjClassNameSlice', 1, "a '/'-separated segment of a valid name"),
+    ('closed', 'duke::tree::class::ObjClassNameSlice::split_inner_class_parent_and_name',
+     'duke::tree::class::ObjClassNameSlice', ('&duke::tree::class::ObjClassNameSlice',),
+     'core::option::Option<(&duke::tree::class::ObjClassNameSlice, &duke::tree::class::ObjClassNameSlice)>', 'ObjClassNameSlice', 2, "both halves checked non-empty, parent not ending in '/', inner without '/' (R18.5)"),
+    ('closed', 'duke::tree::descriptor::ParsedFieldDescriptor::write',
+     'duke::tree::descriptor::ParsedFieldDescriptor', ('&duke::tree::descriptor::ParsedFieldDescriptor',),
+     'duke::tree::field::FieldDescriptor', 'FieldDescriptor', 1, 'printer output (FieldDescriptor::check_valid accepts everything today)'),
+    ('closed', 'duke::tree::descriptor::ParsedMethodDescriptor::write',
+     'duke::tree::descriptor::ParsedMethodDescriptor', ('&duke::tree::descriptor::ParsedMethodDescriptor',),
+     'duke::tree::method::MethodDescriptor', 'MethodDescriptor', 1, 'printer output'),
+    ('closed', 'duke::tree::descriptor::ParsedReturnDescriptor::write',
+     'duke::tree::descriptor::ParsedReturnDescriptor', ('&duke::tree::descriptor::ParsedReturnDescriptor',),
+     'duke::tree::descriptor::ReturnDescriptor', 'ReturnDescriptor', 1, 'printer output'),
+    ('closed', '<duke::tree::descriptor::ReturnDescriptor as core::convert::From<duke::tree::field::FieldDescriptor>>::from',
+     'duke::tree::descriptor::ReturnDescriptor as <duke::tree::descriptor::ReturnDescriptor as core::convert::From<duke::tree::field::FieldDescriptor>>', ('duke::tree::field::FieldDescriptor',),
+     'duke::tree::descriptor::ReturnDescriptor', 'ReturnDescriptor', 1, 'FieldType is a ReturnDescriptor'),
+    ('closed', 'duke::tree::descriptor::<impl duke::tree::field::FieldDescriptor>::from_arr_class',
+     'duke::tree::field::FieldDescriptor', ('&duke::tree::class::ArrClassNameSlice',),
+     'duke::tree::field::FieldDescriptor', 'FieldDescriptor', 1, 'an array class name is its own descriptor'),
+    ('closed', 'duke::tree::descriptor::<impl duke::tree::field::FieldDescriptor>::from_obj_class',
+     'duke::tree::field::FieldDescriptor', ('&duke::tree::class::ObjClassNameSlice',),
+     'duke::tree::field::FieldDescriptor', 'FieldDescriptor', 1, "'L' name ';' wrapper"),
+    ('other-owner', 'dukebox::remap::remap_jar_entry_name_java',
+     'dukebox::remap', ('&java_string::slice::JavaStr', '&impl BRemapper'),
+     'core::result::Result<java_string::owned::JavaString, anyhow::Error>', 'ObjClassNameSlice', 1, 'C07'),
+    ('other-owner', 'dukenest::nester_run::replace_double_underscore_with_dollar',
+     'dukenest::nester_run', ('&duke::tree::class::ObjClassNameSlice',),
+     'duke::tree::class::ObjClassName', 'ObjClassName', 1, 'C14'),
+    ('other-owner', 'dukenest::nester_jar::nest_jar::remap',
+     'dukenest::nester_jar', ('&indexmap::map::IndexMap<duke::tree::class::ObjClassName, dukenest::nest::Nest>', '&dukenest::nest::Nest'),
+     'duke::tree::class::ObjClassName', 'ObjClassName', 1, 'C14'),
+    ('other-owner', "dukenest::nests_mapper_run::NestTypeA::<'a>::new",
+     "dukenest::nests_mapper_run::NestTypeA<'a>", ("&'a duke::tree::class::ObjClassNameSlice",),
+     "dukenest::nests_mapper_run::NestTypeA<'a>", 'ObjClassNameSlice', 2, 'C14'),
+    ('other-owner', 'dukenest::nests_mapper_run::inner_name',
+     'dukenest::nests_mapper_run', ('&duke::tree::class::ObjClassNameSlice', '&duke::tree::class::ObjClassNameSlice', '&duke::tree::class::ObjClassNameSlice'),
+     'core::result::Result<duke::tree::class::ObjClassName, anyhow::Error>', 'ObjClassName', 1, 'C14'),
+    ('other-owner', 'dukenest::nests_mapper_run::rsplit_underscore',
+     'dukenest::nests_mapper_run', ('&duke::tree::class::ObjClassNameSlice',),
+     'core::result::Result<core::option::Option<(&duke::tree::class::ObjClassNameSlice, &duke::tree::class::ObjClassNameSlice)>, anyhow::Error>', 'ObjClassNameSlice', 2, 'C14'),
+    ('other-owner', 'dukenest::nests_mapper_run::construct_inner_name_from_anonymous_number',
+     'dukenest::nests_mapper_run', ('java_string::owned::JavaString',),
+     'core::result::Result<duke::tree::class::ObjClassName, anyhow::Error>', 'ObjClassName', 1, 'C14'),
+    ('other-owner', 'feather_build_rs::insert_mappings::insert_mappings',
+     'feather_build_rs::insert_mappings', ('feather_build_rs::PropagationDirection', 'bool', "&'version feather_build_rs::version_graph::VersionGraph", 'quill::tree::mappings_diff::MappingsDiff', "feather_build_rs::version_graph::VersionEntry<'version>"),
+     'core::result::Result<(), anyhow::Error>', 'ObjClassName', 1, 'outside the listed properties (binary-only helper)'),
+    ('other-owner', 'quill::action::insert_dummy::<impl quill::tree::mappings_diff::MappingsDiff>::insert_dummy_and_contract_inner_names',
+     'quill::tree::mappings_diff::MappingsDiff', ('quill::tree::mappings_diff::MappingsDiff',),
+     'core::result::Result<quill::tree::mappings_diff::MappingsDiff, anyhow::Error>', 'ParameterName', 1, 'C10 (p_<index> literal prefix + decimal digits)'),
+    ('closed', 'quill::remapper::ARemapper::map_class_any',
+     'quill::remapper::ARemapper', ('&Self', '&duke::tree::class::ClassNameSlice'),
+     'core::result::Result<duke::tree::class::ClassName, anyhow::Error>', 'ArrClassName', 1, "result of map_desc on an array class name keeps the leading '['"),
+    ('closed', 'quill::remapper::ARemapper::map_field_desc',
+     'quill::remapper::ARemapper', ('&Self', '&duke::tree::field::FieldDescriptorSlice'),
+     'core::result::Result<duke::tree::field::FieldDescriptor, anyhow::Error>', 'FieldDescriptor', 1, 'map_desc preserves descriptor shape (descriptor types accept everything today)'),
+    ('closed', 'quill::remapper::ARemapper::map_method_desc',
+     'quill::remapper::ARemapper', ('&Self', '&duke::tree::method::MethodDescriptorSlice'),
+     'core::result::Result<duke::tree::method::MethodDescriptor, anyhow::Error>', 'MethodDescriptor', 1, 'map_desc preserves descriptor shape'),
+    ('closed', 'quill::remapper::ARemapper::map_return_desc',
+     'quill::remapper::ARemapper', ('&Self', '&duke::tree::descriptor::ReturnDescriptorSlice'),
+     'core::result::Result<duke::tree::descriptor::ReturnDescriptor, anyhow::Error>', 'ReturnDescriptor', 1, 'map_desc preserves descriptor shape'),
+    ('other-owner', 'quill::remapper::map_desc',
+     'quill::remapper', ('&impl ARemapper + ?Sized', '&java_string::slice::JavaStr'),
+     'core::result::Result<java_string::owned::JavaString, anyhow::Error>', 'ObjClassNameSlice', 1, 'C06 (R06.4)'),
+]
+
+
+def _owner_of(crate, b):
+    """impl type (+ trait) of a method; for a free function the module that owns it (enclosing functions of a nested fn stripped)."""
+    if b.get("impl_ty"):
+        return b["impl_ty"] + ((" as " + b["impl_trait"]) if b.get("impl_trait") else "")
+    segs = b["path"].split("::")[:-1]
+    while len(segs) > 1 and "::".join(segs) in crate.by_path:
+        segs = segs[:-1]
+    return "::".join(segs)
+
+
+def _role(crate, b, target):
+    return (_owner_of(crate, b), tuple(sorted(b.get("inputs") or ())), b.get("output"), target)
 
 
 def r18_2(F, R, spec):
     R.rule("R18.2", "every call of a generated `from_inner_unchecked` is (a) inside the generating macro (identity view of self.0, or the "
                     "TryFrom impls of R18.4), (b) a string literal in a const that an independent JVMS 4.2 predicate accepts, (c) a documented "
-                    "closed conversion between already-checked types (frozen table), or (d) owned by another property's rule; anything else "
-                    "constructs a name type from unchecked data")
+                    "closed conversion between already-checked types (frozen table keyed by the role of the site: owner, signature, "
+                    "constructed type), or (d) owned by another property's rule; anything else constructs a name type from unchecked data")
+    table = {}
+    for kind, label, owner, inputs, output, target, n, why in REVIEWED_SITES:
+        table[(owner, tuple(sorted(inputs)), output, target)] = {"kind": kind, "label": label, "n": n, "why": why, "found": 0}
     n_sites = 0
     for cr, test in F.available():
         if cr == "fbr_entries" or test:
@@ -312,11 +447,13 @@ def r18_2(F, R, spec):
                     R.inst("R18.2", "literal:%s=%r" % (key, lit), v is True, sp=n["sp"], got=lit,
                            detail="literal must satisfy the JVMS predicate of %s" % tshort)
                     continue
-                if (b["path"], tshort) in CLOSED:
-                    R.inst("R18.2", "closed:" + key, True, sp=n["sp"], detail=CLOSED[(b["path"], tshort)])
-                    continue
-                if b["path"] in OTHER_OWNERS:
-                    R.inst("R18.2", "other-owner:" + key, True, sp=n["sp"], nontrivial=False, detail="decided under " + OTHER_OWNERS[b["path"]])
+                e = table.get(_role(c, b, tshort))
+                if e is not None:
+                    e["found"] += 1
+                    extra = e["found"] > e["n"]
+                    R.inst("R18.2", "%s:%s->%s" % (e["kind"], e["label"], tshort), not extra, sp=n["sp"], nontrivial=e["kind"] == "closed",
+                           detail=("more unchecked constructions with this role than were reviewed (%d)" % e["n"]) if extra else
+                           (e["why"] if e["kind"] == "closed" else "decided under " + e["why"]), got=b["path"])
                     continue
                 R.inst("R18.2", "unchecked:" + key, False, sp=n["sp"], got=H.render(n),
                        detail="%s is constructed from data that no rule shows to satisfy its validity predicate" % tshort)
@@ -324,258 +461,214 @@ def r18_2(F, R, spec):
     R.floor("R18.2", 100)
 
 
-# ------------------------------------------------------------------------------------ R18.3
-def _names_atom(crate, spec):
-    def atom(n):
-        k = n.get("k")
-        if k == "mcall":
-            nm = n["name"]
-            if nm == "is_empty":
-                return "empty"
-            if nm == "starts_with" and H.const_value(n["args"][0]) == spec["array_prefix"]:
-                return "starts_with_["
-            if nm == "all":
-                recv = H.peel(n["recv"])
-                f = H.peel(n["args"][0])
-                if recv.get("k") == "mcall" and recv["name"] == "split" and H.const_value(recv["args"][0]) == spec["segment_separator"]:
-                    if f.get("k") == "path" and f["res"].get("path", "").endswith("is_valid_unqualified_name"):
-                        return "all_segments_unqualified"
-                if recv.get("k") == "mcall" and recv["name"] == "chars" and f.get("k") == "closure":
-                    # |c| !matches!(c, A | B | ..)
-                    body, neg = H.negate_peel(f["body"])
-                    if body.get("k") == "match" and len(body["arms"]) == 2:
-                        try:
-                            vals = H.pat_int_values(body["arms"][0]["pat"])
-                        except ValueError:
-                            vals = None
-                        t = H.const_value(body["arms"][0]["body"])
-                        e = H.const_value(body["arms"][1]["body"])
-                        if vals is not None and t is True and e is False and neg:
-                            return "none_of{%s}" % "".join(sorted(chr(v) for v in vals))
-            if nm == "contains":
-                a = H.peel(n["args"][0])
-                if a.get("k") == "array":
-                    chars = [H.const_value(x) for x in a["es"]]
-                    if all(isinstance(ch, str) for ch in chars):
-                        return ("not", ("atom", "none_of{%s}" % "".join(sorted(chars))))
-        if k == "bin" and n["op"] == "==":
-            for a, b in ((n["l"], n["r"]), (n["r"], n["l"])):
-                v = H.const_value(b)
-                if isinstance(v, str):
-                    return "eq:%s" % v
-        return None
-    return atom
+# ------------------------------------------------------------------------------------ reference formulae (JVMS 4.2, doc comments)
+def _uq(Sb, forbidden):
+    return S.f_and(S.f_not(S.atom("empty", Sb)), S.f_all([S.f_not(S.atom("has", Sb, c)) for c in sorted(forbidden)]))
 
 
-def _spec_formulae(spec):
-    uq = ("and", ("not", ("atom", "empty")), ("atom", "none_of{%s}" % "".join(sorted(spec["unqualified_forbidden"]))))
-    me = ("and", ("not", ("atom", "empty")), ("atom", "none_of{%s}" % "".join(sorted(spec["method_forbidden"]))))
-    special = ("or", ("atom", "eq:<init>"), ("atom", "eq:<clinit>"))
+def _spec_formulae(spec, Sb="p0"):
+    sep = spec["segment_separator"]
+    unq = _uq(Sb, spec["unqualified_forbidden"])
+    me = S.f_or(S.f_any([S.atom("eq", Sb, s) for s in spec["method_special"]]), _uq(Sb, spec["method_forbidden"]))
+    allseg = S.f_not(S.atom("any", "split:" + sep, Sb, S.f_not(_uq("$e1", spec["unqualified_forbidden"])), "$e1"))
+    arr = S.atom("starts", Sb, spec["array_prefix"])
     return {
-        "is_valid_unqualified_name": uq,
-        "is_valid_method_name": ("or", special, me),
-        "is_valid_class_name": ("or", ("atom", "starts_with_["), ("atom", "all_segments_unqualified")),
-        "is_valid_arr_class_name": ("atom", "starts_with_["),
-        "is_valid_obj_class_name": ("and", ("not", ("atom", "starts_with_[")), ("atom", "all_segments_unqualified")),
+        "is_valid_unqualified_name": unq,
+        "is_valid_method_name": me,
+        "is_valid_class_name": S.f_or(arr, allseg),
+        "is_valid_arr_class_name": arr,
+        "is_valid_obj_class_name": S.f_and(S.f_not(arr), allseg),
     }
 
 
-def _ok_formula(block, atom, R, where):
-    """Formula under which a Result-returning validity function returns Ok (statement form used in duke-macros)."""
-    n = H.peel(block, refs=False)
-    if n.get("k") != "block":
-        return _ok_value(n, atom, R, where)
-    conj = ("const", True)
-    for s in n["stmts"]:
-        s0 = H.peel(s, refs=False)
-        if s0.get("k") == "if" and "else" not in s0 and H.diverges(s0["then"]) and _returns_err(s0["then"]):
-            conj = ("and", conj, ("not", B.formula(s0["cond"], atom)))
-        elif s0.get("k") == "for":
-            it = H.peel(s0["iter"])
-            if it.get("k") == "mcall" and it["name"] == "split":
-                inner = _ok_formula(s0["body"], atom, R, where)
-                conj = ("and", conj, ("atom", "all_segments:" + B.show(inner)))
-            else:
-                R.unrecognised("R18.3", where, "loop " + H.render(it), sp=s0.get("sp"))
-        else:
-            R.unrecognised("R18.3", where, H.render(s0)[:80], sp=s0.get("sp"))
-    if "tail" in n:
-        t0 = H.peel(n["tail"], refs=False)
-        if t0.get("k") == "if" and "else" not in t0 and H.diverges(t0["then"]) and _returns_err(t0["then"]):
-            return ("and", conj, ("not", B.formula(t0["cond"], atom)))
-        return ("and", conj, _ok_value(n["tail"], atom, R, where))
-    return conj
+TYPE_PREDICATE = {"ClassName": "is_valid_class_name", "ArrClassName": "is_valid_arr_class_name", "ObjClassName": "is_valid_obj_class_name",
+                  "FieldName": "is_valid_unqualified_name", "MethodName": "is_valid_method_name", "ParameterName": "is_valid_unqualified_name",
+                  "LocalVariableName": "is_valid_unqualified_name"}
+MACRO_ENTRY_TYPE = {"class_name": "ClassName", "arr_class_name": "ArrClassName", "obj_class_name": "ObjClassName", "field": "FieldName",
+                    "method": "MethodName", "parameter": "ParameterName", "local_variable": "LocalVariableName"}
 
 
-def _returns_err(n):
-    for x in H.walk(n):
-        if x.get("k") == "ret" and "e" in x:
-            c = H.ctor_of(H.peel(x["e"]))
-            return bool(c) and c[1] == "Err"
-    return False
+def _compare(f, want):
+    cn = S.Canon()
+    nf, nw = cn.norm(f), cn.norm(want)
+    eq, cex = S.equivalent(nf, nw)
+    return eq, cex, S.show(nf), S.show(nw)
 
 
-def _ok_value(n, atom, R, where):
-    n = H.peel(n, refs=False)
-    c = H.ctor_of(n)
-    if c and c[1] == "Ok":
-        return ("const", True)
-    if c and c[1] == "Err":
-        return ("const", False)
-    if n.get("k") == "if" and "else" in n:
-        return ("ite", B.formula(n["cond"], atom), _ok_formula(n["then"], atom, R, where), _ok_formula(n["else"], atom, R, where))
-    if n.get("k") == "block":
-        return _ok_formula(n, atom, R, where)
-    R.unrecognised("R18.3", where, H.render(n)[:80], sp=n.get("sp"))
-    return ("atom", "?" + H.render(n)[:40])
+def _report_unrec(R, rid, where, sym):
+    for text, sp in sym.unrec:
+        R.unrecognised(rid, where, text, sp=sp)
 
 
-def r18_3(F, R, spec):
-    R.rule("R18.3", "each name predicate is truth-table equivalent (over its atoms: emptiness, forbidden-character set, special names, "
-                    "leading '[', all '/'-segments unqualified) to the documented JVMS 4.2 formula, and the compile-time sibling in "
-                    "duke-macros ('always keep in sync') is equivalent to it")
+# ------------------------------------------------------------------------------------ R18.3
+def r18_3(F, R, spec, validators):
+    R.rule("R18.3", "each name predicate is truth-table equivalent (over the atoms emptiness, occurrence of each forbidden character, special "
+                    "names, leading '[', all '/'-segments unqualified) to the documented JVMS 4.2 formula, and so is the compile-time checker "
+                    "that each duke-macros proc-macro applies to its literal ('always keep in sync')")
     duke = F.crate("duke")
     mac = F.crate("duke_macros")
     want = _spec_formulae(spec)
-    atom = _names_atom(duke, spec)
-    uq_text = None
     for name, wf in want.items():
-        b = duke.fn(name, within="tree::names")
+        b = duke.fn(name, within="tree::names") or _predicate_by_role(duke, validators, name)
         if not R.anchor("R18.3", "fn duke::tree::names::" + name, b):
             continue
-        f = B.formula(b["body"], atom)
-        eq, cex = B.equivalent(f, wf)
-        R.inst("R18.3", "duke:" + name, eq, sp=b["sp"], expect=B.show(wf), got=B.show(f),
-               detail=None if eq else "differs under %s" % cex)
-        # sibling
-        mb = mac.fn(name, within="names")
-        if not R.anchor("R18.3", "fn duke_macros::names::" + name, mb):
+        sym = S.Sym([duke])
+        f = sym.fn_formula(b)
+        _report_unrec(R, "R18.3", "duke::tree::names::" + name, sym)
+        eq, cex, got, exp = _compare(f, wf)
+        R.inst("R18.3", "duke:" + name, eq, sp=b["sp"], expect=exp, got=got, detail=None if eq else "differs under %s" % cex)
+    # siblings: by role — the checker each proc-macro entry point hands to the shared expansion helper
+    n_entries = 0
+    for entry, tname in MACRO_ENTRY_TYPE.items():
+        eb = mac.body("duke_macros::" + entry)
+        if not R.anchor("R18.3", "proc-macro duke_macros::" + entry, eb):
             continue
-        mf = _ok_formula(mb["body"], atom, R, "duke_macros::names::" + name)
-        # the macros spell `all segments unqualified` as a loop: normalise that atom
-        uq = B.show(("and", ("and", ("const", True), ("not", ("atom", "empty"))), ("not", ("not", ("atom", "none_of{%s}" % "".join(sorted(spec["unqualified_forbidden"])))))))
-        mf2 = _rename_atoms(mf, spec)
-        eq2, cex2 = B.equivalent(mf2, wf)
-        R.inst("R18.3", "duke-macros:" + name, eq2, sp=mb["sp"], expect=B.show(wf), got=B.show(mf2),
-               detail=None if eq2 else "differs under %s" % cex2)
-    R.floor("R18.3", 10)
+        sym = S.Sym([mac])
+        checkers = []
+        for n in H.walk(eb["body"], into_closures=False):
+            if n.get("k") != "call":
+                continue
+            for a in n["args"]:
+                a0 = H.peel(a)
+                if a0.get("k") == "closure" or (a0.get("k") == "path" and (a0["res"].get("key") in mac.by_key)):
+                    checkers.append(a0)
+        if not R.anchor("R18.3", "checker argument in duke_macros::" + entry, len(checkers) == 1, sp=eb["sp"]):
+            continue
+        n_entries += 1
+        fv, _ = sym.ev(checkers[0], {}, S.TRUE)
+        f = sym.positive(sym.apply(fv, [("s", "p0")], S.TRUE))
+        _report_unrec(R, "R18.3", "duke_macros::" + entry, sym)
+        eq, cex, got, exp = _compare(f, want[TYPE_PREDICATE[tname]])
+        idents = [H.const_value(x["args"][-1]) for x in H.walk(eb["body"]) if H.is_call(x, "push_ident") and x.get("args")]
+        ty_ok = bool(idents) and idents[-1] == tname + "Slice"
+        R.inst("R18.3", "duke-macros:%s!" % entry, eq and ty_ok, sp=eb["sp"], expect="%s for %sSlice" % (exp, tname), got="%s for %s" % (got, idents[-1] if idents else "?"),
+               detail=None if eq else "differs under %s" % cex)
+    # the named siblings (tie-breaker view; absent after a rename, then the entry-point instances above carry the rule)
+    for name, wf in want.items():
+        mb = mac.fn(name, within="names")
+        if mb is None:
+            continue
+        sym = S.Sym([mac])
+        f = sym.fn_formula(mb)
+        _report_unrec(R, "R18.3", "duke_macros::names::" + name, sym)
+        eq, cex, got, exp = _compare(f, wf)
+        R.inst("R18.3", "duke-macros:" + name, eq, sp=mb["sp"], expect=exp, got=got, detail=None if eq else "differs under %s" % cex)
+    R.floor("R18.3", 12)
 
 
-def _rename_atoms(f, spec):
-    """all_segments:<formula text> -> all_segments_unqualified when the embedded formula is the unqualified-name formula."""
-    if f[0] == "atom":
-        if isinstance(f[1], str) and f[1].startswith("all_segments:"):
-            return ("atom", "all_segments_unqualified") if _is_unqualified_text(f[1][len("all_segments:"):], spec) else f
-        return f
-    if f[0] == "const":
-        return f
-    return (f[0],) + tuple(_rename_atoms(x, spec) for x in f[1:])
-
-
-def _is_unqualified_text(text, spec):
-    fs = "".join(sorted(spec["unqualified_forbidden"]))
-    norm = text.replace("(true && ", "").replace(" ", "")
-    return "!empty" in norm and ("!!none_of{%s}" % fs) in norm and norm.count("none_of") == 1 and norm.count("empty") == 1 and "||" not in norm
+def _predicate_by_role(duke, validators, name):
+    """The bool-valued helper of the crate that the validator of a type with this predicate calls (used when the name is gone)."""
+    cands = set()
+    for t, pn in TYPE_PREDICATE.items():
+        if pn != name or t not in validators:
+            continue
+        vb = validators[t]
+        for n in H.walk(vb["body"]):
+            if n.get("k") in ("call", "mcall"):
+                k = (n.get("callee") or {}).get("key")
+                hb = duke.by_key.get(k)
+                if hb is not None and hb.get("output") == "bool" and len(hb.get("inputs") or ()) == 1:
+                    cands.add(k)
+    return duke.by_key[next(iter(cands))] if len(cands) == 1 else None
 
 
 # ------------------------------------------------------------------------------------ R18.4
-def r18_4(duke, R, spec):
-    R.rule("R18.4", "in every TryFrom generated by make_string_str_like! the unchecked constructor is reached only in the `Ok(())` arm of "
-                    "`check_valid` applied to the same value; each check_valid of a name type delegates to the matching predicate")
+def r18_4(F, R, spec):
+    R.rule("R18.4", "in every TryFrom generated by make_string_str_like! the unchecked constructor is reached only on paths where the "
+                    "validator of the constructed type (an associated fn of the owned type returning Result<()>) returned Ok for the same "
+                    "value; the validator of each name type is truth-table equivalent to the documented predicate of that type")
+    duke = F.crate("duke")
+    want = _spec_formulae(spec)
+    validators = {}
     n = 0
     for b in duke.fns("try_from"):
         calls = [x for x in H.walk(b["body"]) if H.is_call(x, "from_inner_unchecked")]
         if not calls:
             continue
         n += 1
-        call = calls[0]
-        ok = False
-        for kind, m, ai in H.path_conditions(b["body"], call):
-            if kind == "arm":
-                sc = H.peel(m["scrut"])
-                if H.is_call(sc, "check_valid"):
-                    v = H.pat_variant(m["arms"][ai]["pat"])
-                    same = H.recv_root(sc["args"][0]) == H.recv_root(call["args"][0]) and H.recv_root(call["args"][0]) is not None
-                    # check_valid must be the one of the constructed type's owner
-                    owner = ((sc.get("callee") or {}).get("impl_ty") or "")
-                    tgt = ((call.get("callee") or {}).get("impl_ty") or "").replace("Slice", "")
-                    ok = bool(v) and v[1] == "Ok" and same and owner == tgt
-        R.inst("R18.4", "tryfrom:%s" % b.get("impl_ty"), ok, sp=call["sp"],
-               detail="match Owned::check_valid(value) { Ok(()) => from_inner_unchecked(value), Err => Err }")
+        tgt = ((calls[0].get("callee") or {}).get("impl_ty") or "")
+        owner = tgt[:-5] if tgt.endswith("Slice") else tgt
+        tshort = owner.rsplit("::", 1)[-1]
+
+        def is_validator(c, body, owner=owner, me=b):
+            return (body.get("impl_ty") == owner and (body.get("output") or "").startswith("core::result::Result<()")
+                    and len(body.get("inputs") or ()) == 1 and body.get("name") != "try_from")
+        sym = S.Sym([duke], opaque_call=is_validator)
+        for c in calls:
+            sym.watch_ids.add(id(c))
+        sym.fn_value(b)
+        ok = True
+        got = []
+        for c in calls:
+            hits = sym.watch.get(id(c), [])
+            if not hits:
+                ok = False
+                got.append("constructor not reached by the evaluator")
+            for pc, args in hits:
+                subj = args[0][1] if args and args[0][0] == "s" else None
+                good = False
+                for a in S.atoms_of(pc):
+                    if a[0] == "call" and a[2] == (subj,) and subj is not None and S.implies(pc, ("atom", a))[0]:
+                        good = True
+                        validators.setdefault(tshort, duke.by_key[a[1]])
+                if not good and tshort in TYPE_PREDICATE and subj is not None:
+                    # validator inlined into the conversion: decide on the predicate itself
+                    sym2 = S.Sym([duke])
+                    sym2.watch_ids.add(id(c))
+                    sym2.fn_value(b)
+                    wf = S.rename_subject(want[TYPE_PREDICATE[tshort]], "p0", subj)
+                    cn = S.Canon()
+                    good = bool(sym2.watch.get(id(c))) and all(S.implies(cn.norm(pc2), cn.norm(wf))[0] for pc2, _ in sym2.watch[id(c)])
+                got.append("reached when " + S.show(pc))
+                ok = ok and good
+        R.inst("R18.4", "tryfrom:%s" % b.get("impl_ty"), ok, sp=calls[0]["sp"], got=got,
+               detail="from_inner_unchecked(value) only where Owned::check_valid(value) is Ok (match / if let Err / let-else / `?` alike)")
     R.floor("R18.4", 32)
-    want = {"ClassName": "is_valid_class_name", "ArrClassName": "is_valid_arr_class_name", "ObjClassName": "is_valid_obj_class_name",
-            "FieldName": "is_valid_unqualified_name", "MethodName": "is_valid_method_name", "ParameterName": "is_valid_unqualified_name",
-            "LocalVariableName": "is_valid_unqualified_name"}
-    for b in duke.fns("check_valid"):
-        t = (b.get("impl_ty") or "").rsplit("::", 1)[-1]
-        if t not in want:
+    for t, pn in TYPE_PREDICATE.items():
+        vb = validators.get(t)
+        if vb is None:
+            vb = next((b for b in duke.fns("check_valid") if (b.get("impl_ty") or "").rsplit("::", 1)[-1] == t), None)
+        if not R.anchor("R18.4", "validator of %s" % t, vb):
             continue
-        top = H.peel(_only(b["body"]))
-        ok = False
-        got = H.render(b["body"])[:100]
-        if top.get("k") == "if" and "else" in top:
-            c0, neg = H.negate_peel(top["cond"])
-            thn = H.ctor_of(H.peel(_tail(top["then"])))
-            if H.is_call(c0, want[t]) and not neg and thn and thn[1] == "Ok" and H.diverges(top["else"]):
-                ok = True
-            elif H.is_call(c0, want[t]) and neg and H.diverges(top["then"]):
-                els = H.ctor_of(H.peel(_tail(top["else"])))
-                ok = bool(els) and els[1] == "Ok"
-        R.inst("R18.4", "check_valid:%s" % t, ok, sp=b["sp"], expect="if names::%s(inner) { Ok(()) } else { bail }" % want[t], got=got)
-
-
-def _only(n):
-    n = H.peel(n, refs=False)
-    while n.get("k") == "block" and not n["stmts"] and "tail" in n:
-        n = H.peel(n["tail"], refs=False)
-    return n
+        sym = S.Sym([duke])
+        f = sym.fn_formula(vb)
+        _report_unrec(R, "R18.4", "validator of " + t, sym)
+        eq, cex, got, exp = _compare(f, want[pn])
+        R.inst("R18.4", "check_valid:%s" % t, eq, sp=vb["sp"], expect="Ok iff " + exp, got="Ok iff " + got, detail=None if eq else "differs under %s" % cex)
+    return validators
 
 
 # ------------------------------------------------------------------------------------ R18.5
-def r18_5(duke, R, spec):
+def r18_5(F, R, spec):
     R.rule("R18.5", "inner-class split/join helpers: split at the LAST '$' only when both sides are non-empty, the parent does not end in '/' "
                     "and the inner part has no '/'; join = parent + '$' + inner (so split∘join is the identity on simple inner names)")
+    duke = F.crate("duke")
+    sep = spec["inner_class_separator"]
     sp_fn = duke.fn("split_inner_class_parent_and_name")
     if R.anchor("R18.5", "fn split_inner_class_parent_and_name", sp_fn):
         rs = [n for n in H.walk(sp_fn["body"]) if n.get("k") == "mcall" and n["name"] in ("rsplit_once", "split_once")]
-        R.inst("R18.5", "split-at-last-dollar", len(rs) == 1 and rs[0]["name"] == "rsplit_once" and H.const_value(rs[0]["args"][0]) == spec["inner_class_separator"],
+        R.inst("R18.5", "split-at-last-dollar", len(rs) == 1 and rs[0]["name"] == "rsplit_once" and H.const_value(rs[0]["args"][0]) == sep,
                sp=sp_fn["sp"], got=[H.render(x) for x in rs])
-        somes = [n for n in H.walk(sp_fn["body"]) if H.ctor_of(n) and H.ctor_of(n)[1] == "Some" and n.get("k") == "call"]
-        guards = set()
-        names = {}
-        if rs:
-            for x in H.walk(sp_fn["body"]):
-                if x.get("k") == "letexpr" and any(y is rs[0] for y in H.walk(x["init"])):
-                    bs = H.pat_bindings(x["pat"])
-                    if len(bs) == 2:
-                        names = {bs[0][0]: "parent", bs[1][0]: "inner"}
-        for s in somes:
-            for kind, cond, pol in H.path_conditions(sp_fn["body"], s):
-                if kind == "if" and pol:
-                    for conj in _conjuncts(cond):
-                        c0, neg = H.negate_peel(conj)
-                        if c0.get("k") == "mcall" and neg:
-                            who = H.local_of(c0["recv"])
-                            role = names.get(who[0]) if who else None
-                            arg = H.const_value(c0["args"][0]) if c0["args"] else None
-                            guards.add((role, c0["name"], arg))
-        want = {("parent", "is_empty", None), ("inner", "is_empty", None), ("parent", "ends_with", "/"), ("inner", "contains", "/")}
-        R.inst("R18.5", "split-guards", guards == want, sp=sp_fn["sp"], expect=sorted(map(str, want)), got=sorted(map(str, guards)))
+        sym = S.Sym([duke])
+        val = sym.fn_value(sp_fn)
+        _report_unrec(R, "R18.5", "split_inner_class_parent_and_name", sym)
+        base = "p0.rsplit_once(%r)" % sep
+        P, I = base + "#0", base + "#1"
+        wf = S.f_all([S.atom("has", "p0", sep), S.f_not(S.atom("empty", P)), S.f_not(S.atom("empty", I)),
+                      S.f_not(S.atom("ends", P, "/")), S.f_not(S.atom("has", I, "/"))])
+        eq, cex, got, exp = _compare(sym.positive(val), wf)
+        R.inst("R18.5", "split-guards", eq, sp=sp_fn["sp"], expect="Some iff " + exp, got="Some iff " + got, detail=None if eq else "differs under %s" % cex)
+        payload = val[2] if val[0] == "b" else None
+        R.inst("R18.5", "split-result-order", payload == ("t", [("s", P), ("s", I)]), sp=sp_fn["sp"], expect="(parent, inner)",
+               got=sym.show_val(payload) if payload else None, nontrivial=False)
     j = duke.fn("from_inner_class")
     if R.anchor("R18.5", "fn from_inner_class", j):
-        pushes = [n for n in H.walk(j["body"]) if n.get("k") == "mcall" and n["name"] in ("push", "push_java_str", "push_str")]
-        seq = [(p["name"], H.const_value(p["args"][0]) if p["name"] == "push" else (H.recv_root(p["args"][0]) or (None, None))[1]) for p in pushes]
+        pushes = [n for n in H.walk(j["body"]) if n.get("k") == "mcall" and n["name"] in ("push", "push_java_str", "push_str", "push_java")]
+        seq = [(p["name"], H.const_value(p["args"][0]) if p["name"] in ("push", "push_java") else (H.recv_root(p["args"][0]) or (None, None))[1]) for p in pushes]
         pids = H.param_ids(j)
         base = H.recv_root(pushes[0]["recv"]) if pushes else None
-        ok = (len(seq) == 2 and seq[0] == ("push", spec["inner_class_separator"]) and seq[1][0] == "push_java_str"
+        ok = (len(seq) == 2 and seq[0][0] in ("push", "push_java") and seq[0][1] == sep and seq[1][0] in ("push_java_str", "push_str")
               and base is not None and H.origin_local(j["body"], base[0]) == pids[0]
-              and H.origin_local(j["body"], H.recv_root(pushes[1]["args"][0])[0]) == pids[1])
+              and H.recv_root(pushes[1]["args"][0]) is not None and H.origin_local(j["body"], H.recv_root(pushes[1]["args"][0])[0]) == pids[1])
         R.inst("R18.5", "join-shape", ok, sp=j["sp"], got=seq, expect="parent ++ '$' ++ inner_name")
     R.floor("R18.5", 3)
-
-
-def _conjuncts(n):
-    n = H.peel(n, refs=False)
-    if n.get("k") == "bin" and n["op"] == "&&":
-        return _conjuncts(n["l"]) + _conjuncts(n["r"])
-    return [n]
